@@ -344,7 +344,7 @@ def cells(tier, seed):
     return out
 
 
-MECHS = ["state_dict_fresh", "state_dict_used", "state_dict_cast", "state_dict_direct_nonstrict", "pickle", "torch_save", "deepcopy"]
+MECHS = ["state_dict_fresh", "state_dict_used", "state_dict_cast", "state_dict_direct_nonstrict", "pickle", "torch_save", "deepcopy", "deepcopy_float"]
 
 
 def run_cell(cell, seed):
@@ -416,6 +416,12 @@ def run_cell(cell, seed):
                 torch.save(model, buf)
                 buf.seek(0)
                 restored = torch.load(buf, weights_only=False)
+            elif mech == "deepcopy_float":
+                # a dtype conversion of a USED model (caches filled by the history): the converted copy is a legal float32 model
+                model.eval()
+                apply_hop(model, spec, "predict", X, y, Xs)   # (the observations made for the earlier mechanisms went through train(): refill)
+                restored = copy.deepcopy(model).float()
+                model.train(was_training)
             else:
                 restored = copy.deepcopy(model)
             ops += 1
@@ -439,7 +445,11 @@ def run_cell(cell, seed):
                     if nm in pb_ and pb_[nm].requires_grad != pa_.requires_grad:
                         attr_diff[nm + ".requires_grad"] = (pa_.requires_grad, pb_[nm].requires_grad)
             a = observables(model, spec, X, y, Xs)
-            b = observables(restored, spec, X, y, Xs)
+            if mech == "deepcopy_float":
+                b = {k: v.double() for k, v in observables(restored, spec, X.float(), y.float(), Xs.float()).items()}
+                attr_diff = {}
+            else:
+                b = observables(restored, spec, X, y, Xs)
             ran += 1
             model.train(was_training)
             for mod in model.modules():  # observing the original must not become part of the next mechanism's save point
@@ -448,7 +458,8 @@ def run_cell(cell, seed):
             fails.append({"sub": "observe-restored", "symptom": util.exc_str(e), "detail": "", "features": f2})
             continue
         for k in a:
-            ok, msg = util.close(b[k], a[k], 1e-12, 1e-12)
+            tol_ = 1e-12 if mech != "deepcopy_float" else 5e-2   # float32 arithmetic of a small, jittered GP
+            ok, msg = util.close(b[k], a[k], tol_, tol_)
             if not ok:
                 fails.append({"sub": "restored-" + k.split("_")[0], "symptom": f"{k} of the restored model differs from the original: err={msg}", "detail": "", "features": f2})
         # "no prediction-relevant state lives outside what these mechanisms carry": plain (non-tensor) public attributes of every sub-module
@@ -457,7 +468,8 @@ def run_cell(cell, seed):
         if diff:
             fails.append({"sub": "restored-attributes", "symptom": "plain attributes differ after the round trip: " + ", ".join(sorted(diff)),
                           "detail": "; ".join(f"{k}: {v}" for k, v in sorted(diff.items()))[:600], "features": f2})
-        kept.append((f2, restored, b))
+        if mech != "deepcopy_float":
+            kept.append((f2, restored, b))
     # the restored objects are independent of the original: changing the ORIGINAL's parameters afterwards changes nothing in them
     try:
         perturb(model, seed + 17)
